@@ -604,7 +604,7 @@ pub fn run_one_live(seed: u64, rt: &tokio::runtime::Runtime) -> Outcome {
     for (c, d) in trace.online_violations.lock().unwrap().iter() {
         v.push((c.clone(), d.clone()));
     }
-    th::wait_until(10_000, || vt::global_leaks().is_empty());
+    let _ = crate::th::settle_leaks();
     for l in vt::global_leaks() {
         v.push(("leak".into(), l));
     }
